@@ -94,25 +94,18 @@ def execute_run(prop, run, timeout):
 ISOLATE = os.environ.get('VERIF_NO_ISOLATE') is None
 
 
-def _task(args):
-    """One simulated run, executed in a forked child of the pool worker.
+def isolated(fn, arg, budget):
+    """Run fn(arg) in a forked child and return its JSON-able result.
 
-    The worker itself never executes SUT code, so every run starts from the
-    same pristine module state (imports + warm-up only): module-level state
-    inside aurel (or numpy/h5py) cannot leak from one run into the next, which
-    keeps a run a pure function of its seed whatever ran before it.
-    """
-    if not ISOLATE:
-        return _task_inner(args)
+    Returns None if the child died or exceeded `budget` seconds."""
     import select
-    prop = load_prop(args[0])
     rfd, wfd = os.pipe()
     child = os.fork()
     if child == 0:
         code = 0
         try:
             os.close(rfd)
-            data = json.dumps(_task_inner(args), default=_jd).encode()
+            data = json.dumps(fn(arg), default=_jd).encode()
             view = memoryview(data)
             while view:
                 n = os.write(wfd, view[:1 << 16])
@@ -123,7 +116,7 @@ def _task(args):
             os._exit(code)
     os.close(wfd)
     chunks = []
-    deadline = time.time() + prop.RUN_TIMEOUT * 1.5 + 30
+    deadline = time.time() + budget
     while True:
         left = deadline - time.time()
         if left <= 0:
@@ -144,9 +137,26 @@ def _task(args):
     try:
         return json.loads(b''.join(chunks).decode())
     except ValueError:
+        return None
+
+
+def _task(args):
+    """One simulated run, executed in a forked child of the pool worker.
+
+    The worker itself never executes SUT code, so every run starts from the
+    same pristine module state (imports + warm-up only): module-level state
+    inside aurel (or numpy/h5py) cannot leak from one run into the next, which
+    keeps a run a pure function of its seed whatever ran before it.
+    """
+    if not ISOLATE:
+        return _task_inner(args)
+    prop = load_prop(args[0])
+    res = isolated(_task_inner, args, prop.RUN_TIMEOUT * 1.5 + 30)
+    if res is None:
         seed = rngmod.run_seed(args[0], args[1], args[3])
-        return {'violations': [], 'index': args[3], 'seed': seed,
-                'harness_error': 'run child died or hung without a result'}
+        res = {'violations': [], 'index': args[3], 'seed': seed,
+               'harness_error': 'run child died or hung without a result'}
+    return res
 
 
 def _task_inner(args):
@@ -306,8 +316,12 @@ def shrink_inner(pid, path):
     sig = rp['sig']
 
     def fails(run):
-        res = execute_run(prop, run, prop.RUN_TIMEOUT)
-        if res['harness_error']:
+        # every candidate in its own forked child: state left behind by an
+        # earlier candidate must not make a later one fail (or pass)
+        res = isolated(lambda r: execute_run(prop, r, prop.RUN_TIMEOUT), run,
+                       prop.RUN_TIMEOUT * 1.5 + 30) if ISOLATE else \
+            execute_run(prop, run, prop.RUN_TIMEOUT)
+        if res is None or res['harness_error']:
             return None
         for v in res['violations']:
             if v['sig'] == sig:
@@ -471,6 +485,11 @@ def check(pid, tier, verif_seed, n_override=None):
           f'{len(herr)} harness error(s), {wall:.0f}s', flush=True)
     if new_violations:
         return 1
+    # a violation that could not be replayed is never swallowed: it is a
+    # harness error (exit 2) however few runs showed it
+    if any('unstable replay' in str(h['harness_error'])
+           or 'non-reproducible' in str(h['harness_error']) for h in herr):
+        return 2
     if herr and (len(herr) > max(2, 0.01 * len(results)) or ok_runs == 0):
         return 2
     return 0
